@@ -380,21 +380,34 @@ pub fn run(ctx: &Ctx) -> i32 {
             });
         }
     }
-    // a frame with 70,000 chunks carried by the new count field
-    if thorough && ctx.wants_family("many-chunks") {
-        ctx.family("many-chunks", 2, "one frame with 70,000 (ignorable) chunks: only the new 32-bit count field can carry the count (old = 0xFFFF)", true);
-        for style in [CountStyle::Both, CountStyle::NewOnly] {
-            let case = || format!("70000 chunks {:?}", style);
+    // frames with 65534 / 65535 / 65536 / 70000 chunks under every count style that can carry the count
+    if ctx.wants_family("many-chunks") {
+        let mut cases: Vec<(usize, CountStyle)> = Vec::new();
+        for n in [65534usize, 65535, 65536, 70000] {
+            cases.push((n, CountStyle::Both));
+            cases.push((n, CountStyle::NewOnly));
+            if n <= 65535 {
+                // (old = n, new = 0): for n = 65535 the old field reads 0xFFFF and the new one 0
+                cases.push((n, CountStyle::OldOnly));
+            }
+        }
+        ctx.family("many-chunks", cases.len() as u64, "one frame with 65534 / 65535 / 65536 / 70000 chunks (ignorable chunks between a layer and its cel) under every count-field style that can carry the count, including (old = 0xFFFF, new = 0) = exactly 65535 chunks; a second frame follows", true);
+        cases.par_iter().for_each(|(n, style)| {
+            let case = || format!("{} chunks {:?}", n, style);
+            if !ctx.wants("many-chunks", &case) {
+                return;
+            }
             let fmt = Fmt::Rgba;
-            let mut f = gen::file(2, 2, &fmt, &[10]);
+            let mut f = gen::file(2, 2, &fmt, &[10, 20]);
             f.frames[0].push(Body::Layer(Layer::image("l")));
-            for _ in 0..69_998 {
+            for _ in 0..n - 2 {
                 f.frames[0].push(Body::Path);
             }
             f.frames[0].push(raw_cel(0, 0, 0, 255, 2, 2, pixels(&fmt, 2, 2, 1, (0, 0))));
-            f.frames[0].count_style = style;
+            f.frames[0].count_style = *style;
+            f.frames[1].push(raw_cel(0, 1, 0, 255, 1, 1, pixels(&fmt, 1, 1, 2, (0, 0))));
             conform(ctx, "many-chunks", &case, &f, &Want::all());
-        }
+        });
     }
     ctx.note("the header flag word is held at 1: Aseprite gives bit 0 a meaning (layer opacity valid), so varying it is not neutral and is not claimed");
     ctx.finish()
